@@ -224,4 +224,182 @@ theorem replacement_eval (c c' : Q) (p : Repo → Bool) (h : selPred c = some p)
     rw [selPred_exact _ p h rfl ctx s d r hr, hp, eval_const]
   | _ => simp [selPred] at h
 
+/-! ### list aggregation -/
+
+theorem addStats_nil_left (t : Stats) : addStats [] t = t := by
+  cases t <;> rfl
+
+theorem mergeEntry_cons_eq (n : Str) (st : Stats) (t : List (Str × Stats)) (est : Stats) :
+    mergeEntry ((n, st) :: t) (n, est) = (n, addStats st est) :: t := by
+  simp [mergeEntry]
+
+theorem mergeEntry_cons_ne (an : Str) (st : Stats) (t : List (Str × Stats)) (en : Str) (est : Stats) (h : an ≠ en) :
+    mergeEntry ((an, st) :: t) (en, est) = (an, st) :: mergeEntry t (en, est) := by
+  have : (an == en) = false := by simpa using h
+  simp [mergeEntry, this]
+
+theorem lookup_cons_eq {β} (n : Str) (v : β) (t : List (Str × β)) : lookup n ((n, v) :: t) = some v := by
+  simp [lookup]
+
+theorem lookup_cons_ne {β} (an n : Str) (v : β) (t : List (Str × β)) (h : an ≠ n) :
+    lookup n ((an, v) :: t) = lookup n t := by
+  have : (an == n) = false := by simpa using h
+  simp [lookup, this]
+
+theorem lookup_mergeEntry (acc : List (Str × Stats)) (en : Str) (est : Stats) (n : Str) :
+    lookup n (mergeEntry acc (en, est)) =
+      if en = n then some (match lookup n acc with | some st => addStats st est | none => est)
+      else lookup n acc := by
+  induction acc with
+  | nil =>
+    by_cases h : en = n
+    · subst h; simp [mergeEntry, lookup]
+    · have : (en == n) = false := by simpa using h
+      simp [mergeEntry, lookup, h, this]
+  | cons a t ih =>
+    obtain ⟨an, ast⟩ := a
+    by_cases h1 : an = en
+    · subst h1
+      rw [mergeEntry_cons_eq]
+      by_cases h : an = n
+      · subst h; simp [lookup_cons_eq]
+      · simp [lookup_cons_ne _ _ _ _ h, h]
+    · rw [mergeEntry_cons_ne _ _ _ _ _ h1]
+      by_cases h : an = n
+      · subst h
+        have hne : ¬ en = an := fun e => h1 e.symm
+        simp [lookup_cons_eq, hne]
+      · rw [lookup_cons_ne _ _ _ _ h, lookup_cons_ne _ _ _ _ h, ih]
+
+theorem names_mergeEntry (acc : List (Str × Stats)) (en : Str) (est : Stats) (x : Str) :
+    x ∈ (mergeEntry acc (en, est)).map (·.1) ↔ x ∈ acc.map (·.1) ∨ x = en := by
+  induction acc with
+  | nil => simp [mergeEntry]
+  | cons a t ih =>
+    obtain ⟨an, ast⟩ := a
+    by_cases h1 : an = en
+    · subst h1
+      rw [mergeEntry_cons_eq]
+      simp only [List.map_cons, List.mem_cons]
+      constructor
+      · rintro (h | h)
+        · exact Or.inl (Or.inl h)
+        · exact Or.inl (Or.inr h)
+      · rintro ((h | h) | h)
+        · exact Or.inl h
+        · exact Or.inr h
+        · exact Or.inl h
+    · rw [mergeEntry_cons_ne _ _ _ _ _ h1]
+      simp only [List.map_cons, List.mem_cons, ih]
+      constructor
+      · rintro (h | h | h)
+        · exact Or.inl (Or.inl h)
+        · exact Or.inl (Or.inr h)
+        · exact Or.inr h
+      · rintro ((h | h) | h)
+        · exact Or.inl h
+        · exact Or.inr (Or.inl h)
+        · exact Or.inr (Or.inr h)
+
+theorem nodup_mergeEntry (acc : List (Str × Stats)) (en : Str) (est : Stats) (h : (acc.map (·.1)).Nodup) :
+    ((mergeEntry acc (en, est)).map (·.1)).Nodup := by
+  induction acc with
+  | nil => simp [mergeEntry]
+  | cons a t ih =>
+    obtain ⟨an, ast⟩ := a
+    simp only [List.map_cons, List.nodup_cons] at h
+    by_cases h1 : an = en
+    · subst h1
+      rw [mergeEntry_cons_eq]
+      simpa using h
+    · rw [mergeEntry_cons_ne _ _ _ _ _ h1]
+      simp only [List.map_cons, List.nodup_cons]
+      refine ⟨?_, ih h.2⟩
+      intro hm
+      rcases (names_mergeEntry t en est an).1 hm with hm | hm
+      · exact h.1 hm
+      · exact h1 hm
+
+/-- statistics of name `n` summed over a list of entries, in order -/
+theorem sumFor_append_one (n : Str) (P : List (Str × Stats)) (e : Str × Stats) :
+    sumFor n (P ++ [e]) = if e.1 = n then addStats (sumFor n P) e.2 else sumFor n P := by
+  unfold sumFor
+  rw [List.filter_append, List.foldl_append]
+  by_cases h : e.1 = n
+  · subst h; simp [List.filter]
+  · have : (e.1 == n) = false := by simpa using h
+    simp [List.filter, this, h]
+
+/-- invariant of the aggregation loop: the map holds, for exactly the names seen so far, the sum of their entries -/
+def AggInv (acc P : List (Str × Stats)) : Prop :=
+  (acc.map (·.1)).Nodup ∧
+  ∀ n, lookup n acc = if n ∈ P.map (·.1) then some (sumFor n P) else none
+
+theorem aggInv_step (acc P : List (Str × Stats)) (e : Str × Stats) (h : AggInv acc P) :
+    AggInv (mergeEntry acc e) (P ++ [e]) := by
+  obtain ⟨en, est⟩ := e
+  obtain ⟨h1, h2⟩ := h
+  refine ⟨nodup_mergeEntry acc en est h1, ?_⟩
+  intro n
+  rw [lookup_mergeEntry, sumFor_append_one, h2 n]
+  by_cases he : en = n
+  · subst he
+    by_cases hm : en ∈ P.map (·.1)
+    · simp [hm]
+    · have hs : sumFor en P = [] := by
+        unfold sumFor
+        have : P.filter (fun x => x.1 == en) = [] := by
+          rw [List.filter_eq_nil_iff]
+          intro x hx hxe
+          exact hm (List.mem_map.mpr ⟨x, hx, by simpa using hxe⟩)
+        simp [this]
+      simp [hm, hs, addStats_nil_left]
+  · have hne : ¬ n = en := fun h => he h.symm
+    have hm : n ∈ (P ++ [(en, est)]).map (·.1) ↔ n ∈ P.map (·.1) := by
+      rw [List.map_append, List.mem_append]
+      constructor
+      · rintro (h | h)
+        · exact h
+        · simp at h; exact absurd h hne
+      · exact Or.inl
+    simp only [he, if_false]
+    by_cases hp : n ∈ P.map (·.1)
+    · rw [if_pos hp, if_pos (hm.2 hp)]
+    · rw [if_neg hp, if_neg (fun h => hp (hm.1 h))]
+
+theorem aggInv_fold (rest acc P : List (Str × Stats)) (h : AggInv acc P) :
+    AggInv (rest.foldl mergeEntry acc) (P ++ rest) := by
+  induction rest generalizing acc P with
+  | nil => simpa using h
+  | cons e t ih =>
+    have := ih (mergeEntry acc e) (P ++ [e]) (aggInv_step acc P e h)
+    simpa [List.append_assoc] using this
+
+theorem lookup_of_mem (l : List (Str × Stats)) (h : (l.map (·.1)).Nodup) (o : Str × Stats) (ho : o ∈ l) :
+    lookup o.1 l = some o.2 := by
+  induction l with
+  | nil => cases ho
+  | cons a t ih =>
+    obtain ⟨an, ast⟩ := a
+    simp only [List.map_cons, List.nodup_cons] at h
+    rcases List.mem_cons.mp ho with rfl | ho
+    · simp [lookup]
+    · have hne : an ≠ o.1 := by
+        intro he
+        exact h.1 (he ▸ List.mem_map.mpr ⟨o, ho, rfl⟩)
+      have : (an == o.1) = false := by simpa using hne
+      simp [lookup, this, ih h.2 ho]
+
+theorem lookup_isSome_iff (l : List (Str × Stats)) (n : Str) : (lookup n l).isSome = true ↔ n ∈ l.map (·.1) := by
+  induction l with
+  | nil => simp [lookup]
+  | cons a t ih =>
+    obtain ⟨an, ast⟩ := a
+    simp only [lookup, List.map_cons, List.mem_cons]
+    by_cases h : an = n
+    · subst h; simp
+    · have : (an == n) = false := by simpa using h
+      have hne : ¬ n = an := fun e => h e.symm
+      simp [this, ih, hne]
+
 end ZoektModel.C18
